@@ -293,6 +293,10 @@ def gen_cast_tensors(ctx):
       chunk = chunk + [0] * (16 - len(chunk))
     for dt in ("bfloat16", "float32") if k % 4 == 0 else ("bfloat16",):
       out.append(dict(dtype=dt, diag=False, shape=sh, bits=chunk, kind="cast"))
+      if sh == [4, 4] and k % 2 == 0:
+        # the cast modes with extract_diagonal=True: still plain casts, the diagonal must survive
+        # (added after a seeded change that removed it before the pass-through was missed)
+        out.append(dict(dtype=dt, diag=True, shape=sh, bits=chunk, kind="cast"))
     p += 16
     k += 1
   return out
